@@ -112,6 +112,10 @@ func parseSpec(el string) (spec, bool) {
 	return spec{first: fn, last: ln}, true
 }
 
+// ManyRanges: a header with more range specs than this may also be answered
+// with the full content.
+const ManyRanges = 16
+
 var hugeMark = new(big.Int).Lsh(big.NewInt(1), 26) // numbers from here on are "huge" (allocation-prone)
 
 // HasHuge reports whether the header contains a decimal number >= 2^26. Such
@@ -287,6 +291,12 @@ func Evaluate(h string, present bool, size int64) Expect {
 		e.Group = "suffix"
 	default:
 		e.Group = "beyond-end"
+	}
+	if len(specs) > ManyRanges {
+		// RFC 7233 section 6.1 lets a server ignore a Range header made of many
+		// small ranges; the statement admits the full content anyway
+		e.Class = "many:" + e.Class
+		e.AllowFull = true
 	}
 	if len(gray) > 0 {
 		e.Class = "gray:" + gray[0] + ":" + e.Class
